@@ -45,6 +45,7 @@ def plan(tier, seed):
         shards.append(("sched", c, 4, tier))
     shards.append(("overlap_realloc",))
     shards.append(("overlap_large",))
+    shards.append(("is_sorted",))
     shards.append(("callers",))
     for c in range(4):
         shards.append(("scanpairs", c, 4, tier))
@@ -413,6 +414,46 @@ def _run_overlap_realloc(desc):
             sh.evaluations += 1
             sh.nontrivial += 1
     sh.sample(case, limit=1)
+    return sh
+
+
+def _run_is_sorted(desc):
+    """sparse_is_sorted (what decides whether a frame is accepted as sorted and free of duplicates): frames of 1 .. 70 pixels in row-major
+    order with ONE defect - a duplicated coordinate or a descending pair - at EVERY position: 0 for the ordered frame, non-zero for
+    every defective one, wherever the defect sits"""
+    from ImageD11 import cImageD11 as cI
+    sh = Shard()
+    width = 9
+    for n in list(range(1, 71)):
+        flat = np.arange(n) * 2 + 3                  # row-major positions with gaps, several rows
+        row = (flat // width).astype(np.uint16)
+        col = (flat % width).astype(np.uint16)
+        if cI.sparse_is_sorted(row, col) != 0:
+            sh.violation("sparse_is_sorted:ordered-frame-rejected", {"kind": "is_sorted", "npixels": n, "defect": None}, {})
+        sh.evaluations += 1
+        for k in range(1, n):
+            for kind in ("duplicate", "descending", "row-descending"):
+                r, c = row.copy(), col.copy()
+                if kind == "duplicate":
+                    r[k], c[k] = r[k - 1], c[k - 1]
+                elif kind == "descending":
+                    r[k - 1], r[k] = row[k], row[k - 1]
+                    c[k - 1], c[k] = col[k], col[k - 1]
+                else:
+                    if row[k] == 0:
+                        continue
+                    r[k] = row[k - 1] - 1 if row[k - 1] > 0 else 0
+                    if r[k] >= row[k - 1]:
+                        continue
+                ordered = all((int(r[q]), int(c[q])) > (int(r[q - 1]), int(c[q - 1])) for q in range(1, n))
+                got = cI.sparse_is_sorted(r, c)
+                if (got == 0) != ordered:
+                    sh.violation("sparse_is_sorted:defect-not-reported" if not ordered else "sparse_is_sorted:ordered-frame-rejected",
+                                 {"kind": "is_sorted", "npixels": n, "defect": kind, "at": k}, {"returned": int(got)})
+                sh.evaluations += 1
+                sh.nontrivial += 1
+    sh.outcomes.add("is_sorted")
+    sh.sample({"kind": "is_sorted", "frames": int(sh.evaluations)}, limit=1)
     return sh
 
 
@@ -811,6 +852,8 @@ def run_shard(desc):
         return _run_overlap_realloc(desc)
     if desc[0] == "overlap_large":
         return _run_overlap_large(desc)
+    if desc[0] == "is_sorted":
+        return _run_is_sorted(desc)
     if desc[0] == "overlap_tall":
         return _run_overlap_tall(desc)
     return {"round": _run_round, "sort": _run_sort, "edge": _run_edge, "overlap": _run_overlap,
@@ -832,6 +875,8 @@ def replay(case):
     elif case["kind"] == "scanpairs":
         r = _run_scanpairs(("scanpairs", 0, 1, "thorough"))
         sh.violations = [v for v in r.violations if v["case"]["frames"] == case["frames"]]
+    elif case["kind"] == "is_sorted":
+        sh.violations = [v for v in _run_is_sorted(("is_sorted",)).violations if v["case"] == case]
     elif case["kind"] == "overlap_large":
         sh.violations = [v for v in _run_overlap_large(("overlap_large",)).violations if v["case"]["regions"] == case["regions"]]
     elif case["kind"] == "overlap_realloc":
